@@ -1,13 +1,19 @@
 #!/bin/sh
-# Build the whole framework from files on disk (offline).
+# Build the framework for every claimed check from files on disk (offline).
 set -e
 cd "$(dirname "$0")"
 export CARGO_NET_OFFLINE=true
-DRIVERS=$(python3 -c "
-import json,glob
-ex=set()
-for f in glob.glob('checks/C*.json'):
-    for d in json.load(open(f)).get('drivers',[]): ex.add(d['exe'])
-print(' '.join(sorted(ex)))")
-(cd lean && lake build DropshotModel DropshotProofs $DRIVERS)
-(cd harness && cargo build --offline --bins)
+TARGETS=$(python3 -c "
+import json
+claimed=open('checks/CLAIMED').read().split()
+lean=set(); bins=set()
+for c in claimed:
+    s=json.load(open('checks/%s.json'%c))
+    lean.update(s['proof_modules'])
+    for d in s.get('drivers',[]): lean.add(d['exe'])
+    for st in s['streams']: bins.add(st['bin'])
+print(' '.join(sorted(lean))+'|'+' '.join('--bin '+b for b in sorted(bins)))")
+LEAN_T=${TARGETS%%|*}
+BIN_T=${TARGETS##*|}
+(cd lean && lake build $LEAN_T)
+(cd harness && cargo build --offline $BIN_T)
